@@ -66,6 +66,7 @@ type Contract struct {
 	IsIface      bool
 	Allocates    bool
 	KeepOwnMaps  bool // "keeps ownmaps": maps of types written only by this package keep their contents
+	Assumes      []string
 	Src          string
 }
 
@@ -719,6 +720,9 @@ func (db *ContractDB) parseLines(lines []srcLine, pkg *types.Package, trusted bo
 				cur.ChanSafeTags = tags
 			case "trusted":
 				cur.Trusted = true
+			case "assumes":
+				// assumes <text>: an assumption the contract rests on, listed in the evidence of every check that uses it
+				cur.Assumes = append(cur.Assumes, strings.TrimSpace(rest))
 			case "let":
 				i := strings.Index(rest, "=")
 				if i < 0 {
@@ -2254,7 +2258,121 @@ func (f *frame) pureIfaceCall(c *Contract, recv T, args []T) T {
 	rt := c.Sig.Results().At(0).Type()
 	rs := e.sortOf(rt)
 	e.declFun(name, sorts, rs)
+	if len(args) == 0 {
+		f.constMethodFacts(c, name, rs)
+	}
 	return T{"(" + name + " " + strings.Join(ts, " ") + ")", rs, rt}
+}
+
+// constMethodFacts reads, for a pure interface method without arguments, the implementations among the module's own
+// types whose body is "return <constant>" (round numbers: func (presign7) Number() round.Number { return 7 }) and
+// states the value per dynamic type. The facts are taken from the SSA of the code under check on every run; a type
+// whose method computes anything gets no fact.
+func (f *frame) constMethodFacts(c *Contract, name, rsort string) {
+	e := f.e
+	key := "constmethod@" + name
+	if e.declared[key+"@seen"] {
+		return
+	}
+	e.declared[key+"@seen"] = true
+	if rsort != "Int" && rsort != "Bool" || len(c.ParamTypes) == 0 {
+		return
+	}
+	it, ok := c.ParamTypes[0].Underlying().(*types.Interface)
+	if !ok {
+		return
+	}
+	mname := c.Key[strings.LastIndex(c.Key, ".")+1:]
+	var paths []string
+	for path := range e.db.w.ByPath {
+		if strings.HasPrefix(path, modPath) {
+			paths = append(paths, path)
+		}
+	}
+	sort.Strings(paths)
+	var cases []string
+	n := 0
+	for _, path := range paths {
+		p := e.db.w.ByPath[path]
+		if p.Types == nil {
+			continue
+		}
+		sc := p.Types.Scope()
+		for _, tnName := range sc.Names() {
+			tn, ok := sc.Lookup(tnName).(*types.TypeName)
+			if !ok || tn.IsAlias() {
+				continue
+			}
+			if _, isI := tn.Type().Underlying().(*types.Interface); isI {
+				continue
+			}
+			cands := []types.Type{tn.Type()}
+			if !types.Implements(tn.Type(), it) {
+				// (when T itself implements the interface no type tag is introduced for *T: the closed-world facts
+				// name T as the implementation)
+				cands = []types.Type{types.NewPointer(tn.Type())}
+			}
+			for _, t := range cands {
+				if !types.Implements(t, it) {
+					continue
+				}
+				obj, _, _ := types.LookupFieldOrMethod(t, false, p.Types, mname)
+				m, ok := obj.(*types.Func)
+				if !ok {
+					continue
+				}
+				fn := e.db.w.Prog.FuncValue(m)
+				if fn == nil || len(fn.Blocks) != 1 {
+					continue
+				}
+				var ret *ssa.Return
+				clean := true
+				for _, in := range fn.Blocks[0].Instrs {
+					switch x := in.(type) {
+					case *ssa.Return:
+						ret = x
+					case *ssa.DebugRef:
+					default:
+						clean = false
+					}
+				}
+				if !clean || ret == nil || len(ret.Results) != 1 {
+					continue
+				}
+				k, ok := ret.Results[0].(*ssa.Const)
+				if !ok || k.Value == nil {
+					continue
+				}
+				var v string
+				switch k.Value.Kind() {
+				case constant.Int:
+					iv, exact := constant.Int64Val(k.Value)
+					if !exact {
+						continue
+					}
+					v = smtInt(iv)
+				case constant.Bool:
+					v = fmt.Sprint(constant.BoolVal(k.Value))
+				default:
+					continue
+				}
+				cases = append(cases, fmt.Sprintf("(=> (= (ityp x) %d) (= (%s x) %s))", e.typeID(t), name, v))
+				n++
+			}
+		}
+	}
+	if n == 0 {
+		return
+	}
+	e.note(fmt.Sprintf("constant methods read from the code: %s has a constant body in %d implementing types", c.Key, n))
+	e.addDecl(key, "(assert (forall ((x Iface)) (! (and "+strings.Join(cases, " ")+" true) :pattern (("+name+" x)))))")
+}
+
+func smtInt(v int64) string {
+	if v < 0 {
+		return fmt.Sprintf("(- %d)", -v)
+	}
+	return fmt.Sprint(v)
 }
 
 func (f *frame) mapLen(m T, st *State) string {
